@@ -6,10 +6,11 @@ import random
 
 from ..comp import partial
 from ..lib import coqrun, driver, env, proofs, report
+from ..translate import partial_rc
 
 PROP = "C16"
 PROP_BITS = (1, 2, 3, 5, 6)      # clauses evaluated by verified checkers on implementation outputs
-CORR_BITS = (0, 4, 7)            # model vs implementation (partial ids; strict/loose ids; loaded source cells)
+CORR_BITS = (0, 4, 7, 8, 9)            # model vs implementation (partial ids; strict/loose ids; loaded source cells)
 CORPUS = os.path.join(env.VERIF, "corpus", "partial")
 
 
@@ -28,7 +29,7 @@ def corpus_cases():
 def streams(tier, seed):
     rng = random.Random(seed)
     quick = tier == "quick"
-    n_stub, n_real, n_der = (1400, 800, 500) if quick else (12000, 6000, 4000)
+    n_stub, n_real, n_der = (900, 500, 400) if quick else (12000, 6000, 4000)
     exh = list(partial.exhaustive_cases())
     if quick:
         exh = [c for i, c in enumerate(exh) if i % 2 == seed % 2]
@@ -46,8 +47,11 @@ def streams(tier, seed):
 
 def main(tier, seed):
     run = report.Run(PROP, tier, seed)
-    pr = proofs.check_property(PROP)
+    pr = proofs.check_property(PROP, gen=[partial_rc.generate])
     proofs_ok = run.proofs(pr)
+    if not proofs_ok:
+        # a broken obligation must not keep the case evaluation from running: build what the cases need
+        proofs.make("theories/Cognates/PartialExec.vo")
     env.use_repo()
     d = coqrun.rundir(PROP)
     total_prop = 0
@@ -56,7 +60,8 @@ def main(tier, seed):
         for name, comp, cases, ctype, cfn in streams(tier, seed):
             if not cases:
                 continue
-            st = driver.run_stream(run, comp, cases, d, name, ctype, cfn, PROP_BITS, corr_bits=CORR_BITS, shard=150)
+            st = driver.run_stream(run, comp, cases, d, name, ctype, cfn, PROP_BITS, corr_bits=CORR_BITS, shard=150,
+                                   max_report=1 if tier == "quick" else 3)
             total_prop += st["prop_fail"] + st["impl_errors"]
             dist = run.coverage["streams"][name]["distribution"]
             excluded += dist.get("tie_excluded_from_equality", 0)
@@ -103,6 +108,12 @@ def main(tier, seed):
         "'+', extend, item assignment, del) into the intended tokens. Half of the derive cases read their source ids "
         "from a file column (COGIDS, PARTIALIDS, PARTIAL_COGNATE_SETS and aliases) whose cells have irregular blanks "
         "(doubled, tripled, leading, trailing, blank-only for the empty list); the model is given the ids as written. "
+        "About 14%% of the random partial cases use cluster_method='mcl' or an external_function supplied by the "
+        "harness (a deterministic pseudo-random partition with non-contiguous labels; 'wild' labels up to 3n only with "
+        "post-processing): what the routine returned per matrix is recorded, checked against its contract by a verified "
+        "checker and replayed into the generic model partial_cluster_any (looked up by the model's own matrix). File "
+        "derive cases also carry every source cell as written and as loaded and are compared with the converter model "
+        "(class of the column in the translated wordlist.rc + x.split()/int()). "
         "Non-trivial (partial) = the run returned and in some concept at least two morphemes share an id while at "
         "least two ids occur; (derive) = some concept has a loose component with more than one word and at least two "
         "components. Distinct by full input. Ids of the real stream are compared with the model only when the float "
@@ -122,9 +133,11 @@ def main(tier, seed):
         "reach the model as decimals",
         "modelled, not verified: _get_slices, _get_partial_matrices (both constructions), partial_cluster, "
         "add_cognate_ids; flat clustering through Cluster/Flat.v; networkx replaced by Cognates/Components.v",
-        "not modelled: cluster_method infomap/mcl/external_function, method='lexstat', split_on_tones=True; the "
-        "wordlist reader and the wordlist.rc converters are exercised (file inputs) but not modelled: the model "
-        "receives the tokens / ids the harness wrote"]
+        "clustering routines mcl / external_function: oracles with the contract 'every position gets an id in 1..n' "
+        "(explicit premise of the theorems, verified checker on every recorded result); infomap not runnable (no igraph)",
+        "translator harness/translate/partial_rc.py (wordlist.rc -> coq/gen/PartialRc.v, reusing the parser of namespace_rc.py) and the converter "
+        "semantics of Wordlist/Serialize.v (C13) for the id-list columns; the TSV reader itself is exercised, not modelled",
+        "not modelled: method='lexstat', split_on_tones=True"]
     run.assumptions += [
         "the aligner is an arbitrary function of the two slices it is given (a universally quantified oracle in "
         "every theorem); the keys of the words of a concept are distinct",
@@ -147,5 +160,5 @@ def replay(path):
     code = bad.get(0, 0)
     shown = {k: v for k, v in res.items() if k not in ("view", "table")}
     print(json.dumps({"impl": shown, "code": code,
-                      "failed": [partial.BITS[k] for k in range(8) if code >> k & 1]}, indent=1, default=str))
+                      "failed": [partial.BITS[k] for k in range(16) if code >> k & 1 and k in partial.BITS]}, indent=1, default=str))
     return 1 if bad else 0
